@@ -237,10 +237,12 @@ class _AndFilterToSqlWhere:
             if case_sensitive is None:
                 case_sensitive = not bool(desc_filter.value.islower())
 
-            like_arg = f"%{desc_filter.value}%".replace("_", "\\_")
+            like_arg = f"%{_escape_like_arg(desc_filter.value)}%"
             op_arg: Any
             if case_sensitive:
-                cond = sql.Note.body.like(like_arg)  # type: ignore[attr-defined]
+                cond = sql.Note.body.like(  # type: ignore[attr-defined]
+                    like_arg, escape="\\"
+                )
                 subquery = select(sql.Note.id, sql.Note.body).where(cond)
                 id_list: list[int] = []
                 for ID, body in self.session.exec(subquery).all():
@@ -310,6 +312,13 @@ class _AndFilterToSqlWhere:
             )
             and_conds.append(in_op(subquery))
         return and_(and_conds[0], *and_conds[1:])
+
+
+def _escape_like_arg(value: str) -> str:
+    """Escapes the characters that are special to SQL's LIKE (using '\\')."""
+    return (
+        value.replace("\\", "\\\\").replace("%", "\\%").replace("_", "\\_")
+    )
 
 
 def _get_notes_in_file(session: Session, file_name: str) -> list[sql.Note]:
